@@ -89,10 +89,14 @@ func VerifHarness_C16_route() {
 	var answers func(r *request) bool // does the response answer this request?
 	switch verifrt.Choose("resp.kind", 6) {
 	case 0:
+		// a headers message: the answer to a request (by height: starts at that height; most
+		// recent, -1: starts anywhere) or a new-block notification (request height zero, starts at
+		// the new block)
 		h := verifrt.I32("resp.height")
-		msg = &Message{Payload: &Headers{RequestHeight: h, StartHeight: 0}}
+		start := verifrt.U32("resp.start-height")
+		msg = &Message{Payload: &Headers{RequestHeight: h, StartHeight: start}}
 		answers = func(r *request) bool {
-			return verifrt.And(r.typ == MessageTypeGetHeaders, r.height == int(h))
+			return verifrt.And(r.typ == MessageTypeGetHeaders, verifrt.And(r.height == int(h), verifrt.Or(r.height < 0, r.height == int(start))))
 		}
 	case 1:
 		hdr := c16Header(0)
@@ -141,6 +145,9 @@ func VerifHarness_C16_route() {
 		}
 		msg = &Message{Payload: &Reject{MessageType: t, Hash: hp, Code: RejectCode(verifrt.U32("resp.code")), Message: "no"}}
 		answers = func(r *request) bool {
+			if t == MessageTypeGetFeeQuotes {
+				return r.typ == MessageTypeGetFeeQuotes // no key: the reject carries no hash either
+			}
 			if hp == nil {
 				return false
 			}
@@ -148,8 +155,6 @@ func VerifHarness_C16_route() {
 			case MessageTypeSendTx, MessageTypeSendExpandedTx, MessageTypeSaveTxs, MessageTypeReprocessTx,
 				MessageTypeMarkHeaderInvalid, MessageTypeMarkHeaderNotInvalid, MessageTypeGetTx, MessageTypeGetHeader:
 				return verifrt.And(r.typ == t, c16HashEq(&r.hash, hp))
-			case MessageTypeGetFeeQuotes:
-				return r.typ == MessageTypeGetFeeQuotes
 			}
 			return false
 		}
